@@ -28,6 +28,8 @@
 //     J                     open all gates, wait until stop() has returned
 //   case <id> free threads=<T> n=<records per thread> lens=<lenspec> roll=<bytes> burst=<k> quiesce=<0|1>
 //     (no ops) all gates open, T threads append concurrently, the clock ticks, then stop()
+//   case <id> lfree threads=<T> n=<records per thread> lens=<lenspec> roll=<bytes> flush=<sec> every=<n> burst=<k>
+//     (no ops) T threads append concurrently to ONE thread-safe LogFile (threadSafe = true), the clock ticks
 //   end
 // Output: one line per op (model-comparable), then "f <file name> <size> <crc>" per produced file in
 // name order, "e <announcement>" per captured stderr announcement, "end".  Files are left in
@@ -81,6 +83,7 @@ int __real_pthread_cond_timedwait(pthread_cond_t*, pthread_mutex_t*, const struc
 
 // ------------------------------------------------------------------------------------ global control
 static std::atomic<bool> g_virtual(false);        // clock is virtual
+static std::atomic<bool> g_atomicClock(false);    // lfree: time() = g_vnow (several threads call it)
 static std::atomic<long> g_vnow(0);
 static std::deque<long> g_timeScript;              // sequential: successive time() results
 static long g_timeLast = 0;
@@ -171,7 +174,8 @@ extern "C" time_t __wrap_time(time_t* t)
 {
   if (!g_virtual.load()) return __real_time(t);
   long v;
-  if (g_log)
+  if (g_atomicClock.load()) v = g_vnow.load();
+  else if (g_log)
   {
     // the back-end's first time() call is in the LogFile constructor, before its first test of running_
     if (g_forced.load() && !g_startGateDone && isBackend()) { g_startGateDone = true; gate("start", 0); }
@@ -190,14 +194,14 @@ extern "C" time_t __wrap_time(time_t* t)
 extern "C" int __wrap_gettimeofday(struct timeval* tv, void* tz)
 {
   if (!g_virtual.load()) return __real_gettimeofday(tv, tz);
-  tv->tv_sec = g_log ? g_vnow.load() : g_timeLast;
+  tv->tv_sec = (g_log || g_atomicClock.load()) ? g_vnow.load() : g_timeLast;
   tv->tv_usec = 0;
   return 0;
 }
 
 // a write loop that never ends (e.g. AppendFile::append no longer advancing) must not fill the disk:
 // no operation of any case needs more than a few dozen fwrite calls between two flushes
-static std::atomic<long> g_fwCalls(0);
+static thread_local long t_fwCalls = 0;   // per thread: back-end between two flushes / one sequential op / one LogFile::append
 static void runaway()
 {
   static const char msg[] = "RUNAWAY: more than 5000 fwrite_unlocked calls without a flush / within one operation\n";
@@ -208,7 +212,7 @@ static void runaway()
 extern "C" size_t __wrap_fwrite_unlocked(const void* p, size_t sz, size_t n, FILE* fp)
 {
   if (fp == stdout || fp == stderr) return __real_fwrite_unlocked(p, sz, n, fp);
-  if (g_fwCalls.fetch_add(1) > 5000) runaway();
+  if (++t_fwCalls > 5000) runaway();
   if (g_log)
   {
     if (isBackend()) gate("write", static_cast<long>(sz * n));
@@ -238,7 +242,7 @@ extern "C" int __wrap_ferror(FILE* fp)
 extern "C" int __wrap_fflush(FILE* fp)
 {
   if (fp == NULL || fp == stdout || fp == stderr) return __real_fflush(fp);
-  g_fwCalls.store(0);
+  t_fwCalls = 0;
   if (g_log) { if (isBackend()) gate("flush", 0); }
   else ++g_nflush;
   return __real_fflush(fp);
@@ -418,7 +422,7 @@ static void runSeq(const std::vector<string>& hdr)
     g_timeCalls = 0;
     g_errSeen = 0;
     g_ferr = 0;
-    g_fwCalls.store(0);
+    t_fwCalls = 0;
     if (w[0] == "A" && w.size() >= 5)
     {
       string d = vh::bytesOfSpec(w[1]);
@@ -568,7 +572,7 @@ static void runAsync(const std::vector<string>& hdr, bool freeMode)
   long now = atol(hdrGet(hdr, "now", "1000").c_str());
   g_virtual.store(true);
   g_vnow.store(now);
-  g_fwCalls.store(0);
+  t_fwCalls = 0;
   g_timeScript.clear();
   g_announce.clear();
   g_parkCount = 0;
@@ -727,6 +731,87 @@ static void runAsync(const std::vector<string>& hdr, bool freeMode)
   fflush(stdout);
 }
 
+// ------------------------------------------------------------------------------------ thread-safe LogFile, free-running
+struct LfWorker
+{
+  muduo::LogFile* lf;
+  int t;
+  unsigned n, burst;
+  LenSpec spec;
+  std::atomic<bool> done;
+  pthread_t th;
+  LfWorker() : lf(NULL), t(0), n(0), burst(0), spec("1"), done(false) {}
+};
+
+static void* lfWorkerMain(void* arg)
+{
+  LfWorker* w = static_cast<LfWorker*>(arg);
+  std::vector<char> buf(8192);
+  for (unsigned i = 0; i < w->n; ++i)
+  {
+    int len = w->spec.at(i);
+    if (len > 8000) len = 8000;
+    makeRecord(w->t, i, len, &buf[0]);
+    t_fwCalls = 0;
+    w->lf->append(&buf[0], len);
+    if (w->burst && ((i + 1) % w->burst) == 0) sched_yield();
+  }
+  w->done.store(true);
+  return NULL;
+}
+
+static void runLogFileFree(const std::vector<string>& hdr)
+{
+  int T = atoi(hdrGet(hdr, "threads", "2").c_str());
+  long roll = atol(hdrGet(hdr, "roll", "100000").c_str());
+  int flush = atoi(hdrGet(hdr, "flush", "3").c_str());
+  int every = atoi(hdrGet(hdr, "every", "16").c_str());
+  unsigned n = static_cast<unsigned>(atol(hdrGet(hdr, "n", "1000").c_str()));
+  unsigned burst = static_cast<unsigned>(atol(hdrGet(hdr, "burst", "0").c_str()));
+  LenSpec spec(hdrGet(hdr, "lens", "100"));
+  g_virtual.store(true);
+  g_atomicClock.store(true);
+  g_vnow.store(atol(hdrGet(hdr, "now", "1000").c_str()));
+  g_wrScript.clear();
+  g_ferr = 0;
+  t_fwCalls = 0;
+  printf("case %s free\n", hdr[1].c_str());
+  {
+    muduo::LogFile lf("c16log", roll, true, flush, every);
+    std::vector<std::unique_ptr<LfWorker> > ws;
+    for (int t = 0; t < T; ++t)
+    {
+      ws.emplace_back(new LfWorker);
+      ws.back()->lf = &lf;
+      ws.back()->t = t;
+      ws.back()->n = n;
+      ws.back()->burst = burst;
+      ws.back()->spec = spec;
+      ws.back()->spec.seed += static_cast<uint32_t>(t) * 977u;
+    }
+    for (int t = 0; t < T; ++t) pthread_create(&ws[t]->th, NULL, lfWorkerMain, ws[t].get());
+    for (;;)
+    {
+      bool all = true;
+      for (int t = 0; t < T; ++t) if (!ws[t]->done.load()) all = false;
+      if (all) break;
+      usleep(500);
+      g_vnow.fetch_add(1);
+    }
+    for (int t = 0; t < T; ++t) pthread_join(ws[t]->th, NULL);
+    printf("J");
+    for (int t = 0; t < T; ++t) printf(" t%d=%u", t, n);
+    printf("\n");
+  }
+  string line;
+  while (std::getline(std::cin, line)) { if (vh::splitWs(line).size() && vh::splitWs(line)[0] == "end") break; }
+  g_atomicClock.store(false);
+  g_virtual.store(false);
+  listFiles();
+  printf("end\n");
+  fflush(stdout);
+}
+
 int main(int argc, char** argv)
 {
   g_scratch = argc > 1 ? argv[1] : "/verif/_work/C16/scratch";
@@ -740,6 +825,7 @@ int main(int argc, char** argv)
     if (w[2] == "seq") runSeq(w);
     else if (w[2] == "async") runAsync(w, false);
     else if (w[2] == "free") runAsync(w, true);
+    else if (w[2] == "lfree") runLogFileFree(w);
     else { printf("case %s BADKIND\nend\n", w[1].c_str()); }
     fflush(stdout);
   }
